@@ -25,7 +25,15 @@ func VH_C02() {
 		// position of the close: after 0..left transactions of this run
 		k := vf.Choose("closeAfter", 0, left)
 		left -= k
+		stall := vf.Param("STALL", 0) == 1
+		if stall {
+			// a flusher slower than the writers: Close finds a non-empty flush queue
+			db.manager.mu.Lock()
+		}
 		vworkload(db, mo, keys, "C02.run"+string(rune('0'+c)), k, drain)
+		if stall {
+			db.manager.mu.Unlock()
+		}
 		if vf.Param("PRECLOSE_DRAIN", 0) == 1 {
 			vDrain(db)
 		}
@@ -43,7 +51,9 @@ func VH_C02() {
 		mo.check(db, "C02.reopened"+string(rune('0'+c)), keys)
 	}
 	// the store stays writable and new commits supersede the old state
-	vworkload(db, mo, keys, "C02.last", left, drain)
+	if vf.Param("STALL", 0) == 0 {
+		vworkload(db, mo, keys, "C02.last", left, drain)
+	}
 	vDrain(db)
 	mo.check(db, "C02.final", keys)
 	db.Close()
